@@ -1414,6 +1414,7 @@ def shared_state_findings(ctx):
                         ty = res.expr_type(v, fi)
                     except Exception:
                         ty = set()
+                    ty = {t for t in ty if t != 'none'}        # (`TABLE.get(k)` may be None; the store is reached with a class)
                     is_cls = bool(ty) and all(isinstance(t, tuple) and t and t[0] == 'cls' for t in ty)
                 if is_cls:
                     out.append((src(v) + '.' + x.attr, ctx.site(fi, x), fi,
